@@ -170,15 +170,23 @@ def body_width(case):
     check(abs(wr - w1) <= 2 * 6.5 * se, "width:rotation", f"width changes under rotation beyond the Monte-Carlo bound: {w1} -> {wr} (bound {2 * 6.5 * se:.3g})")
     check(0 <= w1 <= diam * (1 + 1e-12), "width:range", f"mean width {w1} outside [0, diameter {diam}]")
     labs = [f"d{d}", f"r{r}", "nt:width-relations"] + (["many-directions"] if n_opt != n else [])
+    n_big = 200000
+    se_big = diam / (2 * math.sqrt(n_big))
     if d == 2 and r == 2:
         ex = exact_mean_width(Y, case["kind"])
         check(abs(w1 - ex) <= 6.5 * se, "width:value-2d", f"mean width {w1} but perimeter/pi = {ex} (Monte-Carlo bound {6.5 * se:.3g})")
+        with calling("compute_mean_width (n=200000)"):
+            wb = float(dreye.compute_mean_width(X, n=n_big, seed=seed, vectorized=True))
+        check(abs(wb - ex) <= 6.5 * se_big, "width:value-2d", f"mean width with {n_big} directions {wb} but perimeter/pi = {ex} (Monte-Carlo bound {6.5 * se_big:.3g})")
         labs.append("exact-2d")
     if r == 1 and d >= 2:
         # a segment of length L in d dimensions has mean width L * Gamma(d/2) / (sqrt(pi) Gamma((d+1)/2))
         L = float(Y.max() - Y.min())
         ex = L * math.gamma(d / 2) / (math.sqrt(math.pi) * math.gamma((d + 1) / 2))
         check(abs(w1 - ex) <= 6.5 * se, "width:value-segment", f"mean width of a segment of length {L} in {d}-D is {w1}, expected {ex}")
+        with calling("compute_mean_width (n=200000)"):
+            wb = float(dreye.compute_mean_width(X, n=n_big, seed=seed, vectorized=True))
+        check(abs(wb - ex) <= 6.5 * se_big, "width:value-segment", f"mean width of a segment of length {L} in {d}-D with {n_big} directions is {wb}, expected {ex}")
         labs.append("exact-segment")
     return labs
 
